@@ -93,4 +93,15 @@ ILL_TYPED = [
 'def f() -> int:\n\tlambda x: x\n\treturn 1',
 '@unknown_decorator\ndef f() -> int:\n\treturn 1',
 'def f(d: dict[str, int]) -> int:\n\treturn d.get(1, 2, 3, 4)',
+	# errors reported on nodes without a source position (empty slots): parameters without annotation, star parameters
+	'def f(a) -> None:\n\tpass',
+	'def f(k: int, *a) -> int:\n\treturn k',
+	'def f(k: int, **kw) -> int:\n\treturn k',
+	'class A:\n\tdef m(self, a) -> int:\n\t\treturn 1',
+	'def f(a, b=1) -> None:\n\tx = a',
+	'def g() -> None:\n\tpass\ndef f() -> int:\n\tx = g()\n\treturn x.y',
+	'class A:\n\tn: int\ndef f() -> int:\n\ta = A()\n\treturn a.n.m',
+	'def f(k: int) -> int:\n\tfor i in k:\n\t\tprint(i)\n\treturn 0',
+	'def f() -> None:\n\twith open() as g:\n\t\tpass',
+	'def f(xs: list[int]) -> int:\n\ta, b, c = xs\n\treturn a',
 ]
